@@ -511,8 +511,10 @@ class CursorAwareWindow(BaseWindow, ContextManager["CursorAwareWindow"]):
 
         logger.debug("lines in last lines by row: %r" % self._last_lines_by_row.keys())
         logger.debug("lines in current lines by row: %r" % current_lines_by_row.keys())
-        self._last_cursor_row = max(
-            0, cursor_pos[0] - offscreen_scrolls + self.top_usable_row
+        # (never below the last screen row: the terminal does not put the cursor there
+        # either, e.g. when the window's top has been pushed off the screen)
+        self._last_cursor_row = min(
+            height - 1, max(0, cursor_pos[0] - offscreen_scrolls + self.top_usable_row)
         )
         self._last_cursor_column = cursor_pos[1]
         self.write(self.t.move(self._last_cursor_row, self._last_cursor_column))
